@@ -51,6 +51,9 @@ type FuncContract struct {
 	Line     int
 	PkgPath  string
 	Trusted  string // reason text for extern
+	SameAs   string // paramfunc: the function value is the function with this key; its contract (minus preconditions over its own free variables) is used
+	Grows    map[string]bool // rely locations that only grow (boolean ghost sets): old members stay members
+	Invokes  string // name of a func-typed parameter this function calls exactly once (its contract is applied at the call)
 }
 
 type GhostFn struct {
@@ -266,12 +269,33 @@ func (cs *Contracts) parseLine(cur **FuncContract, t, path string, ln int, pkgPa
 			return errf("rely outside function contract")
 		}
 		for _, part := range splitTop(rest) {
+			grows := false
+			if strings.HasPrefix(part, "grows ") {
+				grows = true
+				part = strings.TrimSpace(strings.TrimPrefix(part, "grows "))
+			}
 			e, err := parseExpr(part)
 			if err != nil {
 				return errf("%v", err)
 			}
 			(*cur).Relies = append((*cur).Relies, ModLoc{part, e})
+			if grows {
+				if (*cur).Grows == nil {
+					(*cur).Grows = map[string]bool{}
+				}
+				(*cur).Grows[part] = true
+			}
 		}
+	case "sameas":
+		if *cur == nil {
+			return errf("sameas outside function contract")
+		}
+		(*cur).SameAs = canonKey(pkgPath, strings.TrimSpace(rest))
+	case "invokes":
+		if *cur == nil {
+			return errf("invokes outside function contract")
+		}
+		(*cur).Invokes = strings.TrimSpace(rest)
 	case "flags":
 		if *cur == nil {
 			return errf("flags outside function contract")
